@@ -1,6 +1,7 @@
-import TIV.C08.Proofs
+import TIV.C08.Props
 import TIV.C09.Model
-/-! helper lemmas for C09: the simulation between the caching and the non-caching image iterator -/
+/-! helper lemmas for C09: the simulation between the caching and the non-caching image iterator;
+    the stretch invariant of the caching render iterator -/
 namespace TIV.C09
 open TIV.C08 (Size pyGet pySet)
 
@@ -211,4 +212,332 @@ theorem irun_sim (render : Nat → Size → β) (key : Size → κ) (hk : Functi
     rw [ho, ih _ _ hs.1]
 
 end
+
+/-! ## render iterator: at most one render per frame within a stretch without a settings change -/
+section stretch
+open TIV.C08
+variable {ρ O : Type}
+
+/-- the settings a cache entry is keyed on -/
+def settingsOf (s : St ρ O) : Size × Dur × Args := (s.size, s.dur, s.args)
+
+/-- the cache holds, for frame `k`, an entry rendered under the current settings -/
+def Fresh (s : St ρ O) (k : Nat) : Prop :=
+  ∃ e : CacheEntry O, s.cache[k]? = some (some e) ∧ (e.size, e.dur, e.args) = settingsOf s
+
+/-- structural invariant of an open, caching iterator over a definite source -/
+def CachingInv (s : St ρ O) : Prop :=
+  s.closed = false →
+    s.definite = true ∧ (∃ n, s.count = some n) ∧ s.frameCount = s.cache.length ∧ 0 < s.cache.length ∧
+    0 ≤ s.frameOffset ∧ s.loop ≠ 0
+
+/-- what one pass through the loop body does to the request log and the cache -/
+theorem body_stretch (R : Renderable ρ O) (s : St ρ O) (k : Nat) (hk : s.frameNo = (k : Int))
+    (hlt : k < s.cache.length) :
+    (Fresh s k ∧ (body R s).1.calls = s.calls ∧ (body R s).1.cache = s.cache) ∨
+    (¬ Fresh s k ∧ (body R s).1.calls = reqOf s :: s.calls ∧
+      ((body R s).1.closed = true ∨
+        ∃ fr, (body R s).1.cache = s.cache.set k (some ⟨fr, s.size, s.dur, s.args⟩))) := by
+  have hne : s.cache.isEmpty = false := by
+    cases hc : s.cache with
+    | nil => simp [hc] at hlt
+    | cons a l => rfl
+  obtain ⟨ent, hent⟩ : ∃ ent, s.cache[k]? = some ent := ⟨s.cache[k], by simp [hlt]⟩
+  have miss : cacheLookup s = .ok none → ¬ Fresh s k →
+      (¬ Fresh s k ∧ (body R s).1.calls = reqOf s :: s.calls ∧
+        ((body R s).1.closed = true ∨
+          ∃ fr, (body R s).1.cache = s.cache.set k (some ⟨fr, s.size, s.dur, s.args⟩))) := by
+    intro hl hnf
+    refine ⟨hnf, body_calls_miss R s hl, ?_⟩
+    unfold body
+    rw [hl]
+    rcases hres : R.render s.rstate (reqOf s) with ⟨r', res⟩
+    simp only [hres]
+    cases res with
+    | frame fr =>
+      simp only [hne, Bool.false_eq_true, if_false, hk, pySet_nat, afterRender]
+      split
+      · left; rfl
+      · right; exact ⟨fr, by simp [advance]; split <;> (try split) <;> rfl⟩
+    | stop => left; simp only; split <;> rfl
+    | fail => left; rfl
+  cases ent with
+  | none =>
+    right
+    refine miss (by simp [cacheLookup, hne, hk, pyGet_nat, hent]) ?_
+    rintro ⟨e, he, _⟩; rw [hent] at he; simp at he
+  | some e =>
+    by_cases hm : (e.size, e.dur, e.args) = (s.size, s.dur, s.args)
+    · left
+      have hl : cacheLookup s = .ok (some e.frame) := by simp [cacheLookup, hne, hk, pyGet_nat, hent, hm]
+      refine ⟨⟨e, hent, hm⟩, body_calls_hit R s e.frame hl, ?_⟩
+      unfold body; rw [hl]; unfold afterRender
+      cases presentWith s.padding s.paddedSize e.frame <;> grind [advance, shut]
+    · right
+      refine miss (by simp [cacheLookup, hne, hk, pyGet_nat, hent, hm]) ?_
+      rintro ⟨e', he', hm'⟩
+      rw [hent] at he'; simp at he'; subst he'; exact hm hm'
+
+/-- the generator-side fields a pass through the body keeps -/
+def Kept (s s' : St ρ O) : Prop :=
+  s'.definite = s.definite ∧ s'.frameCount = s.frameCount ∧ s'.count = s.count ∧
+  s'.cache.length = s.cache.length ∧ (s.definite = true → 0 ≤ s.frameOffset → 0 ≤ s'.frameOffset) ∧
+  settingsOf s' = settingsOf s ∧ s'.loop = s.loop
+
+theorem afterRender_kept (s : St ρ O) (fr : Frame O) : Kept s (afterRender s fr).1 := by
+  unfold afterRender
+  cases presentWith s.padding s.paddedSize fr <;> grind [Kept, settingsOf, advance, shut]
+
+theorem body_kept (R : Renderable ρ O) (s : St ρ O) : Kept s (body R s).1 := by
+  unfold body
+  cases cacheLookup s with
+  | error e => grind [Kept, settingsOf, shut]
+  | ok o =>
+    cases o with
+    | some fr => exact afterRender_kept s fr
+    | none =>
+      rcases hres : R.render s.rstate (reqOf s) with ⟨r', res⟩
+      simp only [hres]
+      cases res with
+      | frame fr =>
+        simp only
+        split
+        · exact (by
+            have := afterRender_kept
+              ({ s with rstate := r', calls := (reqOf s :: s.calls) } : St ρ O) fr
+            grind [Kept, settingsOf])
+        · exact (by
+            have := afterRender_kept
+              ({ s with rstate := r', calls := (reqOf s :: s.calls),
+                        cache := pySet s.cache s.frameNo (some ⟨fr, s.size, s.dur, s.args⟩) } : St ρ O) fr
+            have hl : (pySet s.cache s.frameNo (some ⟨fr, s.size, s.dur, s.args⟩)).length = s.cache.length := by
+              unfold pySet; split <;> simp
+            grind [Kept, settingsOf])
+      | stop => grind [Kept, settingsOf, shut]
+      | fail => grind [Kept, settingsOf, shut]
+
+/-- `next` on an open caching iterator: either it ends the iteration without rendering, or it is one
+    pass through the loop body at a frame number inside the cache -/
+theorem nextOp_stretch (R : Renderable ρ O) (s : St ρ O) (hJ : CachingInv s) (hopen : s.closed = false) :
+    ((nextOp R s).1.closed = true ∧ (nextOp R s).1.calls = s.calls) ∨
+    ∃ (s1 : St ρ O) (k : Nat), nextOp R s = body R s1 ∧ s1.cache = s.cache ∧ s1.calls = s.calls ∧
+      settingsOf s1 = settingsOf s ∧ s1.frameNo = (k : Int) ∧ s1.frameOffset = (k : Int) ∧ k < s1.cache.length ∧
+      s1.closed = false ∧ s1.definite = true ∧ s1.count = s.count ∧ s1.frameCount = s1.cache.length ∧ s1.loop ≠ 0 := by
+  obtain ⟨hd, ⟨n, hn⟩, hfc, hlen, h0, hl⟩ := hJ hopen
+  -- after a seek-aware resume, `frame_no = frame_offset`
+  have key : ∀ s1 : St ρ O, s1.cache = s.cache → s1.calls = s.calls → settingsOf s1 = settingsOf s →
+      s1.frameNo = s1.frameOffset → 0 ≤ s1.frameOffset → s1.closed = false → s1.definite = true →
+      s1.count = s.count → s1.frameCount = s1.cache.length → s1.loop ≠ 0 →
+      (((inner R s1).1.closed = true ∧ (inner R s1).1.calls = s.calls) ∨
+       ∃ (s2 : St ρ O) (k : Nat), inner R s1 = body R s2 ∧ s2.cache = s.cache ∧ s2.calls = s.calls ∧
+        settingsOf s2 = settingsOf s ∧ s2.frameNo = (k : Int) ∧ s2.frameOffset = (k : Int) ∧ k < s2.cache.length ∧
+        s2.closed = false ∧ s2.definite = true ∧ s2.count = s.count ∧ s2.frameCount = s2.cache.length ∧ s2.loop ≠ 0) := by
+    intro s1 e1 e2 e3 e4 e5 e6 e7 e8 e9 e10
+    unfold inner
+    by_cases hlt : s1.frameNo < (s1.frameCount : Int)
+    · simp only [hlt, if_true]
+      right
+      obtain ⟨k, hk⟩ := Int.eq_ofNat_of_zero_le e5
+      exact ⟨s1, k, rfl, e1, e2, e3, by omega, hk, by omega, e6, e7, e8, e9, e10⟩
+    · simp only [hlt, if_false]
+      by_cases hz : (wrap s1).loop = 0
+      · simp only [hz, if_true]
+        left; constructor
+        · rfl
+        · simp only [shut, wrap]; split <;> exact e2
+      · simp only [hz, if_false]
+        have hw : (wrap s1).frameNo = 0 ∧ (wrap s1).frameOffset = 0 ∧ (wrap s1).frameCount = s1.frameCount ∧
+            (wrap s1).cache = s1.cache ∧ (wrap s1).calls = s1.calls ∧ settingsOf (wrap s1) = settingsOf s1 ∧
+            (wrap s1).closed = s1.closed ∧ (wrap s1).definite = s1.definite ∧ (wrap s1).count = s1.count := by
+          simp only [wrap, settingsOf]; split <;> simp
+        obtain ⟨w1, w2, w3, w4, w5, w6, w7, w8, w9⟩ := hw
+        have hlt2 : (wrap s1).frameNo < ((wrap s1).frameCount : Int) := by
+          rw [w1, w3, e9, e1]; omega
+        simp only [hlt2, if_true]
+        right
+        exact ⟨wrap s1, 0, rfl, by rw [w4, e1], by rw [w5, e2], by rw [w6, e3], by simpa using w1, by simpa using w2,
+          by rw [w4, e1]; exact hlen, by rw [w7, e6], by rw [w8, e7], by rw [w9, e8], by rw [w3, w4, e9], hz⟩
+  unfold nextOp
+  simp only [hopen, Bool.false_eq_true, if_false]
+  cases hph : s.phase with
+  | dummy =>
+    simp only [hd, if_true, Int.mul_one, hl, if_false]
+    exact key _ rfl rfl rfl rfl h0 rfl rfl rfl hfc hl
+  | running =>
+    simp only [hd, if_true]
+    exact key _ rfl rfl rfl rfl h0 rfl rfl rfl hfc hl
+
+theorem cachingInv_step (R : Renderable ρ O) (s : St ρ O) (op : Op) (hJ : CachingInv s) :
+    CachingInv (step R s op).1 := by
+  by_cases hopen : s.closed = false
+  · cases op with
+    | next =>
+      intro hopen'
+      rcases nextOp_stretch R s hJ hopen with ⟨hc, _⟩ | ⟨s1, k, e, c1, c2, c3, c4, c5, c6, c7, c8, c9, c10, c11⟩
+      · simp only [step] at hopen'; rw [hc] at hopen'; exact absurd hopen' (by simp)
+      · obtain ⟨k1, k2, k3, k4, k5, k6, k7⟩ := body_kept R s1
+        obtain ⟨hd, ⟨n, hn⟩, hfc, hlen, h0, hl⟩ := hJ hopen
+        simp only [step, e]
+        refine ⟨by rw [k1, c8], ⟨n, by rw [k3, c9, hn]⟩, by rw [k2, k4, c10], by rw [k4, c1]; exact hlen,
+          k5 c8 (by rw [c5]; omega), by rw [k7]; exact c11⟩
+    | seek o w => cases w <;> grind [CachingInv, step, seekOp]
+    | setDuration d => cases d <;> grind [CachingInv, step, setDurationOp]
+    | setPadding p =>
+      have := hJ hopen
+      simp only [step, setPaddingOp, CachingInv]; repeat' split
+      all_goals simp_all
+    | setArgs a => cases hc : convertArgs a <;> grind [CachingInv, step, setArgsOp]
+    | setSize z =>
+      have := hJ hopen
+      simp only [step, setSizeOp, CachingInv]; repeat' split
+      all_goals simp_all
+    | close => grind [CachingInv, step, closeOp, shut]
+    | pokeLoop v => exact hJ
+    | rseek o w =>
+      have := hJ hopen
+      simp only [step, rseekOp, CachingInv]; cases rseekTarget s.count s.rFrame o w <;> simp_all
+    | rnoise => exact hJ
+    | termSize z => exact hJ
+  · have hc : s.closed = true := by simpa using hopen
+    intro h
+    rw [closed_stays R s hc op] at h
+    exact absurd h (by simp)
+
+theorem cachingInv_run (R : Renderable ρ O) (ops : List Op) : ∀ (s : St ρ O), CachingInv s →
+    CachingInv (run R s ops).1 := by
+  induction ops with
+  | nil => intro s h; exact h
+  | cons op ops ih => intro s h; simp only [run]; exact ih _ (cachingInv_step R s op h)
+
+theorem cachingInv_init (i : Init) (r0 : ρ) (s0 : St ρ O) (h0 : init i r0 = .ok s0)
+    (hc : cachedDecision i.count i.cache = true) : CachingInv s0 := by
+  obtain ⟨args, ps, hck, hps, hs⟩ := init_shape i r0 s0 h0
+  have hl := initCheck_loops hck
+  cases hcount : i.count with
+  | none => simp [cachedDecision, hcount] at hc
+  | some n =>
+    have hn2 := initCheck_count hck n hcount
+    rw [hcount] at hc
+    subst hs
+    intro _
+    simp only [hcount, hc, if_true, List.length_replicate]
+    simp
+    omega
+
+/-- operations that change what a cache entry is keyed on (`set_padding` is not one: padding is
+    applied after the cache) -/
+def NoSettingChange : Op → Prop
+  | .setSize _ => False
+  | .setDuration _ => False
+  | .setArgs _ => False
+  | _ => True
+
+/-- an operation other than `next` that changes no setting leaves request log, cache and settings alone -/
+theorem quiet_step (R : Renderable ρ O) (s : St ρ O) (op : Op) (hop : NoSettingChange op) (hne : op ≠ .next) :
+    (step R s op).1.calls = s.calls ∧ (step R s op).1.cache = s.cache ∧
+    settingsOf (step R s op).1 = settingsOf s := by
+  cases op with
+  | next => exact absurd rfl hne
+  | setSize z => exact absurd hop (by simp [NoSettingChange])
+  | setDuration d => exact absurd hop (by simp [NoSettingChange])
+  | setArgs a => exact absurd hop (by simp [NoSettingChange])
+  | seek o w => cases w <;> grind [step, seekOp, settingsOf]
+  | setPadding p => simp only [step, setPaddingOp, settingsOf]; repeat' split
+                    all_goals simp_all
+  | close => grind [step, closeOp, shut, settingsOf]
+  | pokeLoop v => exact ⟨rfl, rfl, rfl⟩
+  | rseek o w => simp only [step, rseekOp]; cases rseekTarget s.count s.rFrame o w <;> exact ⟨rfl, rfl, rfl⟩
+  | rnoise => exact ⟨rfl, rfl, rfl⟩
+  | termSize z => exact ⟨rfl, rfl, rfl⟩
+
+/-- what holds of the run since the stretch began at `s0`: `new` are the requests made since then -/
+def StretchInv (s0 s : St ρ O) (new : List Req) : Prop :=
+  s.calls = new ++ s0.calls ∧ (new.map (·.off)).Nodup ∧ settingsOf s = settingsOf s0 ∧
+  (s.closed = false → ∀ q ∈ new, ∃ k : Nat, q.off = (k : Int) ∧ Fresh s k)
+
+theorem stretch_step (R : Renderable ρ O) (s0 s : St ρ O) (new : List Req) (op : Op)
+    (hJ : CachingInv s) (hI : StretchInv s0 s new) (hop : NoSettingChange op) :
+    ∃ new', StretchInv s0 (step R s op).1 new' := by
+  obtain ⟨i1, i2, i3, i4⟩ := hI
+  by_cases hnext : op = .next
+  · subst hnext
+    by_cases hopen : s.closed = false
+    · rcases nextOp_stretch R s hJ hopen with ⟨hc, hcalls⟩ | ⟨s1, k, e, c1, c2, c3, c4, c5, c6, c7, c8, c9, c10, c11⟩
+      · -- the iteration ended
+        refine ⟨new, by simp only [step]; rw [hcalls, i1], i2, ?_, ?_⟩
+        · have := nextOp_static R s
+          simp only [step, settingsOf]; rw [this.2.2.2.2.1, this.2.2.2.2.2.1, this.2.2.2.2.2.2.1]; exact i3
+        · intro h; simp only [step] at h; rw [hc] at h; exact absurd h (by simp)
+      · obtain ⟨k1, k2, k3, k4, k5, k6, k7⟩ := body_kept R s1
+        have hfr : ∀ j, Fresh s1 j ↔ Fresh s j := by
+          intro j; simp only [Fresh, c1, c3]
+        simp only [step, e]
+        rcases body_stretch R s1 k c4 c6 with ⟨hf, b1, b2⟩ | ⟨hnf, b1, b2⟩
+        · -- a hit: nothing is requested
+          refine ⟨new, by rw [b1, c2, i1], i2, by rw [k6, c3, i3], ?_⟩
+          intro ho q hq
+          obtain ⟨j, hj, hjf⟩ := i4 hopen q hq
+          refine ⟨j, hj, ?_⟩
+          obtain ⟨e', he', hm'⟩ := hjf
+          exact ⟨e', by rw [b2, c1]; exact he', by rw [k6, c3]; exact hm'⟩
+        · -- a miss: frame `k` is requested, and it was not requested before in this stretch
+          have hoff : (reqOf s1).off = (k : Int) := c5
+          refine ⟨reqOf s1 :: new, by rw [b1, c2, i1]; rfl, ?_, by rw [k6, c3, i3], ?_⟩
+          · simp only [List.map_cons, List.nodup_cons]
+            refine ⟨?_, i2⟩
+            intro hmem
+            obtain ⟨q, hq, hqo⟩ := List.mem_map.mp hmem
+            obtain ⟨j, hj, hjf⟩ := i4 hopen q hq
+            have : j = k := by rw [hoff] at hqo; omega
+            subst this
+            exact hnf ((hfr j).mpr hjf)
+          · intro ho q hq
+            rcases b2 with hcl | ⟨fr, hset⟩
+            · rw [hcl] at ho; exact absurd ho (by simp)
+            · have hfresh_k : Fresh (body R s1).1 k := by
+                refine ⟨⟨fr, s1.size, s1.dur, s1.args⟩, ?_, by rw [k6]; rfl⟩
+                rw [hset]; simp [List.getElem?_set, c6]
+              rcases List.mem_cons.mp hq with rfl | hq'
+              · exact ⟨k, hoff, hfresh_k⟩
+              · obtain ⟨j, hj, hjf⟩ := i4 hopen q hq'
+                refine ⟨j, hj, ?_⟩
+                by_cases hjk : j = k
+                · subst hjk; exact hfresh_k
+                · obtain ⟨e', he', hm'⟩ := (hfr j).mpr hjf
+                  refine ⟨e', ?_, by rw [k6]; exact hm'⟩
+                  rw [hset, List.getElem?_set_ne (Ne.symm hjk)]; exact he'
+    · -- finalized: `next` changes nothing
+      have hc : s.closed = true := by simpa using hopen
+      have e : step R s .next = (s, .err .StopIteration) := (closed_rejects R s hc).1
+      rw [e]
+      exact ⟨new, i1, i2, i3, i4⟩
+  · obtain ⟨q1, q2, q3⟩ := quiet_step R s op hop hnext
+    refine ⟨new, by rw [q1, i1], i2, by rw [q3, i3], ?_⟩
+    intro ho q hq
+    have hopen : s.closed = false := by
+      cases hcl : s.closed with
+      | false => rfl
+      | true => rw [closed_stays R s hcl op] at ho; exact absurd ho (by simp)
+    obtain ⟨j, hj, e', he', hm'⟩ := i4 hopen q hq
+    exact ⟨j, hj, e', by rw [q2]; exact he', by rw [q3]; exact hm'⟩
+
+theorem stretch_run (R : Renderable ρ O) (s0 : St ρ O) (ops : List Op) (hops : ∀ op ∈ ops, NoSettingChange op) :
+    ∀ (s : St ρ O) (new : List Req), CachingInv s → StretchInv s0 s new →
+      ∃ new', StretchInv s0 (run R s ops).1 new' := by
+  induction ops with
+  | nil => intro s new _ hI; exact ⟨new, hI⟩
+  | cons op ops ih =>
+    intro s new hJ hI
+    obtain ⟨new1, h1⟩ := stretch_step R s0 s new op hJ hI (hops op (List.mem_cons_self ..))
+    simp only [run]
+    exact ih (fun o ho => hops o (List.mem_cons_of_mem _ ho)) _ new1 (cachingInv_step R s op hJ) h1
+
+theorem run_append (R : Renderable ρ O) (a b : List Op) : ∀ (s : St ρ O),
+    (run R s (a ++ b)).1 = (run R (run R s a).1 b).1 := by
+  induction a with
+  | nil => intro s; rfl
+  | cons op a ih => intro s; simp only [List.cons_append, run]; exact ih _
+
+end stretch
+
 end TIV.C09
